@@ -207,6 +207,13 @@ func RunAsync(fn func() (interface{}, error)) *Future {
 	future := NewFuture()
 
 	go func() {
+		// A panic in fn rejects the future instead of killing the process
+		defer func() {
+			if r := recover(); r != nil {
+				future.Reject(fmt.Errorf("async panic: %v", r))
+			}
+		}()
+
 		// Check for cancellation before running
 		select {
 		case <-future.Cancelled():
